@@ -164,6 +164,16 @@ pub fn run_enum(name: &str, _args: &[String], w: &mut dyn Write) -> bool {
         writeln!(w, "{} {} : {} | {}", a, b, show(&taboos(k, a, b)), show(&taboos(k + 1, a, b))).unwrap();
       } }
     }
+    // day and hour look-ups INTERLEAVED in one thread, same-kind look-ups with the same branch and day pillar back to back
+    // (month pillar a / hour pillar a, day pillar b): what a cache shared between the tables would confuse
+    "c18.mixed" => {
+      for a in 0..60 { for b in 0..60 {
+        let dg = show(&gods(a, b));
+        let dr = show(&taboos(0, a, b)); let hr = show(&taboos(2, b, a));
+        let da = show(&taboos(1, a, b)); let ha = show(&taboos(3, b, a));
+        writeln!(w, "{} {} : {} | {} | {} | {} | {}", a, b, dg, dr, da, hr, ha).unwrap();
+      } }
+    }
     "c18.luck" => {
       for i in 0..151i64 {
         let r = guard(|| { let g = God::from_index(i as isize); Some(format!("{} {} {}", g.get_index(), g.get_luck().get_index(), g.get_size())) });
